@@ -1048,7 +1048,7 @@ def check_sites(ctx, res, batch, N, R, n_cases):
                     res.violate('sites-empty-not-N0:' + site_p, 'no precipitates: available sites != N0 of the site type', dict(case, x=[z.tolist() for z in zero]), e, n0)
                 # strictly fewer sites when the phase's own population grows (while sites are left)
                 xs2 = [x.copy() for x in xs]
-                add = max(0.05 * n0, 0.0) / max(occ_unit(descs[p], pbms[p], cfg, NA), 1e-300) / len(xs2[p])
+                add = 0.05 * n0 / max(occ_unit(descs[p], pbms[p], cfg, NA), 1e-300)      # 5 % of N0 more sites occupied
                 xs2[p] = xs2[p] + add
                 g2 = call(xs2)
                 if got > 0 and not (g2 < got):
@@ -1058,7 +1058,7 @@ def check_sites(ctx, res, batch, N, R, n_cases):
                     res.violate('sites-increase-with-population', 'available sites increase when the occupying populations grow', dict(case, x2=[x.tolist() for x in xs2]), [got, g2], 'non-increasing')
                 # oversubscribed: more occupied sites than N0 -> exactly 0
                 xs3 = [x.copy() for x in xs]
-                xs3[p] = xs3[p] + 2.5 * n0 / max(occ_unit(descs[p], pbms[p], cfg, NA), 1e-300) / len(xs3[p])
+                xs3[p] = xs3[p] + 2.5 * n0 / max(occ_unit(descs[p], pbms[p], cfg, NA), 1e-300)
                 g3 = call(xs3)
                 if g3 != 0:
                     res.violate('sites-not-zero-when-oversubscribed:' + site_p, 'precipitates of the site type occupy more than N0 sites but sites are still available',
